@@ -53,7 +53,7 @@ CLAIMED["C15"] = {
     "text": "Decides the clock-dependent clauses only: time:sleep refuses immediately above the applicable cap (default hour, :max, host ceiling) or beyond the context deadline, never blocks longer than requested or past cancellation, and instants read from the clock around each sleep order, subtract, add and round-trip consistently with the simulated time that actually passed. Each case runs the real libtime inside a synctest bubble: context kind x ceiling x :max x sleep durations drawn from the boundary set (0, negative, cap-1/cap/cap+1, remaining-1/remaining/remaining+1 to the deadline, before/at/after the cancellation instant, years under :max); elapsed simulated time must equal the model's exactly (0 on refusal). The pure string laws of C15 (RFC 3339 acceptance/rejection over arbitrary strings, parse-duration arithmetic) are NOT decided - they have no clock in them.",
     "note": "Trusted: testing/synctest's fake clock (go1.26.8); the sleep model in sim/e8_clock.go written from docs/lang.md 'Sleep length'. Exact ties (sleep ends exactly at the deadline / cancellation instant) accept either outcome. RFC 3339 and duration-string clauses are out of scope of this technique.",
     "design_ref": "4/C15",
-    "rule": "case = context kind (none, background, cancel at T, deadline at D, deadline without Done channel, deadline+cancel, already cancelled) x host ceiling x 1-4 sleep calls with boundary-biased duration and :max; distinct_nontrivial counts distinct (context kind, outcome class, elapsed) sequences among cases where a sleep was refused, interrupted, or hit an exact tie.",
+    "rule": "case = context kind (none, background, cancel at T, deadline at D, deadline without Done channel, deadline whose Err lags, deadline+cancel, already cancelled) x host ceiling x 1-4 sleep calls with boundary-biased duration and :max; distinct_nontrivial counts distinct (context kind, outcome class, elapsed) sequences among cases where a sleep was refused, interrupted, or hit an exact tie.",
     "real": REAL + ["lisp/lisplib/libtime (sleep, utc-now, time-from, time-add, time<, time>, time=, format/parse-rfc3339-nano, parse-duration, duration-ns) on the fake clock", "context.WithCancel/WithDeadline from the Go standard library inside the bubble"],
     "stubs": ["the clock and timers (testing/synctest)", "a deadline-only context with a nil Done channel", "host probe builtins"],
     "assumptions": ["evaluation steps cost zero simulated time, so elapsed time is exactly time spent blocked"],
@@ -66,7 +66,7 @@ CLAIMED["C20"] = {
     "text": "For each seeded layout every 1- and 2-component location over the layout's names plus '.' and '..', sampled 3-4 component locations, and every absolute spelling of every node are loaded through LoadSource from four loading-file contexts, and a sample end-to-end through (load-file ...) evaluated from a loader file; in half of the layouts an adversary re-points a symlink / removes / replaces the resolved target between path resolution and read. Identity of what was served or evaluated is established by unique content markers: it must be a whole file whose real path lies under the root's real directory; for locations where lexical and physical parents agree the served file must be the one an independent component-by-component resolver names relative to the loading file's directory. FSLibrary runs over an in-memory fs.FS with injected open errors, read errors and short reads. Enumeration is complete for locations of at most 2 components per layout; layouts are sampled.",
     "note": "Trusted: the layout-to-disk builder and the independent resolver in sim/e9_fs.go; the adversary only re-points/removes links and files (the class the code documents itself as handling), it never replaces a real directory component by a link; refusals of inside files (over-refusal) are counted, not flagged, because the property is an only-if.",
     "design_ref": "4/C20",
-    "rule": "case = directory layout (skeleton + 2-6 seeded symlinks) x root spelling x optional adversary move; each case performs ~2600 loads. distinct_nontrivial counts distinct per-layout result sequences among layouts where a location resolved outside the root or the adversary acted.",
+    "rule": "case = directory layout (skeleton + 2-6 seeded symlinks) x root spelling (absolute, or relative to a working directory at or below the root) x optional adversary move; each case performs ~9000 loads, some of files that load further files. distinct_nontrivial counts distinct per-layout result sequences among layouts where a location resolved outside the root or the adversary acted.",
     "real": ["lisp.RelativeFileSystemLibrary on a real directory tree", "lisp.FSLibrary", "LEnv.LoadFile / load-file / Runtime.sourceContext for the end-to-end sample", "parser/*"],
     "stubs": ["the directory tree (built per case under os.MkdirTemp)", "file-system adversary at the guarded hook lisp.verifPoint(\"library.resolved\")", "in-memory fs.FS with fault injection", "sim:mark probe builtin"],
     "assumptions": ["loading files are addressed by their real (link-free) paths", "locations whose lexical and physical '..' interpretation differ are checked for safety only, not for which inside file is chosen"],
@@ -121,6 +121,21 @@ CLAIMED["C11"] = {
     "real": REAL, "stubs": STUBS,
     "assumptions": ["ten global variables; sequences of at most ~15 elements; maps over 8 key spellings of 5 names"],
 }
+
+# what was added to each check after the first version (kept apart so the
+# original descriptions stay readable)
+LATER = {
+    "C04": "Later additions: a sentinel step (the last form wrapped in the harness's own ignore-errors followed by a constant, symbol or call in tail position) under which no budget below the run's cost and no cancellation index may end in a value; nesting levels that pass through load-string / load-bytes with a lower bound on the admitting limit; the logical stack height swept like the physical one; a budget and a cancellation configured together.",
+    "C05": "Later additions: the host cancels an operation's context after the entry point returned; functions defined by acknowledged operations contain special operators; a bytes value belongs to the shared state and multi-element appends are refused on a middle or last element.",
+    "C08": "Later additions: lexical bindings named like special operators, macros, builtins and package functions used in operator position; the language package gains exports in mid-history (new packages start with them, existing ones keep what they have); nested loads through load-bytes.",
+    "C09": "Later additions: abbreviated, incomplete and over-full special-form syntax (near-miss forms) and the values the interpreter hands out for type names, directly, in argument-type errors and through macro expansions.",
+    "C10": "Later additions: well-formed and near-miss text for the library parsers, misspelt references with several equally near candidates, and process groups that also differ in TZ, LANG, LC_ALL, HOME and USER.",
+    "C11": "Later additions: stability of sorts under equal keys, single-argument concat, bytes appended from variables (also onto empty accumulators), and reach-in follow-ups that take an element container out of a container, change it in place and inspect both.",
+    "C15": "Later additions: a context that reports a deadline, has no Done channel and whose Err stays nil after the deadline; durations at the ends of the int64 range; time-elapsed compared with time-from.",
+    "C20": "Later additions: roots spelled relative to a working directory at or below the root (which exposed defect D7, repaired), and files that load further files, whose nested relative locations must resolve against the directory of the file containing the call (entered directly, through links, and through a function defined in another file).",
+}
+for _k, _v in LATER.items():
+    CLAIMED[_k]["text"] += " " + _v
 
 NOT_APPLICABLE = {
     "C01": "pure function of the program text: no schedule, clock, fault or history in the statement; needs a definitional interpreter (differential testing), which is a different technique",
